@@ -20,7 +20,14 @@ from fuzzylite.library import representation
 PID = "C15"
 MODULES = ["FlVerif.Props.C15"]
 NAMESPACE = "C15"
-TIE_A = ["Tables.export", "code:fuzzylite.library.Representation.construction_arguments"]
+TIE_A = ["Tables.export", "code:fuzzylite.library.Representation.construction_arguments",
+         "code:fuzzylite.library.Representation.package_of", "code:fuzzylite.library.Representation.import_statement",
+         "code:fuzzylite.library.Representation.as_constructor", "code:fuzzylite.library.Representation.repr",
+         "code:fuzzylite.library.Representation.repr1", "code:fuzzylite.library.Representation.repr_float",
+         "code:fuzzylite.library.Representation.repr_ndarray", "code:fuzzylite.rule.Rule.__repr__",
+         "code:fuzzylite.rule.RuleBlock.__repr__", "code:fuzzylite.variable.Variable.__repr__",
+         "code:fuzzylite.variable.OutputVariable.__repr__", "code:fuzzylite.exporter.PythonExporter.encapsulate",
+         "code:fuzzylite.exporter.PythonExporter.to_string", "code:fuzzylite.exporter.PythonExporter.engine"]
 RULE = ("the generated engines of C14 with arbitrary finite double term / range / threshold / default parameters, inf / NaN "
         "values, quotes and backslashes in descriptions, rule weights on the decimals grid or arbitrary x alias in {'fl', '', '*', "
         "custom} x {plain repr, encapsulated (PythonExporter)} x {formatted by black, not} x input rows; every component "
@@ -40,7 +47,9 @@ LEVEL_TEXT = ("Lean theorems over constructor-call trees driven by the regenerat
               "property oracle executes the exported source (plain / encapsulated / formatted) with the library's import "
               "statement and compares repr, FLL and bit-identical outputs.")
 LEVEL_NOTE = ("Carried by the correspondence only: executing the exported source, repr(float)/repr(str), black, bit-identical "
-              "outputs, PythonExporter.encapsulate's class / function wrapper. Trusted: Lean kernel, standard axioms, tracer "
+              "outputs; reprlib's elision limits (lists nested more than 10 deep, 6e6 elements, 3e7 characters). Tied by proof (code -> model): "
+              "package_of, import_statement, as_constructor, the type dispatch of repr, repr_float, repr_ndarray, the __repr__ of Rule / "
+              "RuleBlock / Variable / OutputVariable, PythonExporter.encapsulate / to_string / engine. Trusted: Lean kernel, standard axioms, tracer "
               "tables (introspection + probing of every __repr__), harness.")
 TECHNIQUE = "Lean 4 proof over a constructor-call model tied to regenerated signature / __repr__ tables + execution of the exported source by the real interpreter"
 
